@@ -883,6 +883,7 @@ package compose
 //@     invariant[idx] 0 <= i && i <= n
 //@     invariant[no_err] forall(j int :: 0 <= j && j < i ==> tasks[j].err == nil)
 //@     invariant[out] len(sOutput) == n && fresh(sOutput) && n == len(tasks) && n == len(input.ToolCalls)
+//@     invariant[readers] forall(j int :: 0 <= j && j < i ==> sOutput[j] != nil)
 
 //@ func (*ToolsNode).Stream$1
 //@   props C17
